@@ -460,13 +460,17 @@ func contractText(c *Contract) string {
 // whose contract mentions one of those predicates; other global invariants are always assumed.
 func globalRelevant(p *Program, g, ctext string) bool {
 	uses := false
+	mentionsAny := false
 	for name, pd := range p.specs.Pures {
-		if pd.Body == "" && strings.Contains(g, name+"(") {
+		if pd.Body != "" {
+			continue
+		}
+		if strings.Contains(g, name+"(") {
 			uses = true
-			if strings.Contains(ctext, name+"(") {
-				return true
-			}
+		}
+		if strings.Contains(ctext, name+"(") {
+			mentionsAny = true
 		}
 	}
-	return !uses
+	return !uses || mentionsAny
 }
